@@ -199,13 +199,18 @@ class ResultABC(DiffEqualityMixin, metaclass=abc.ABCMeta):
         def array_allclose(left_value, right_value):
             if np.shape(left_value) != np.shape(right_value):
                 return False
-            return np.allclose(
-                left_value,
-                right_value,
-                rtol=rtol,
-                atol=atol,
-                equal_nan=equal_nan,
-            )
+            try:
+                return np.allclose(
+                    left_value,
+                    right_value,
+                    rtol=rtol,
+                    atol=atol,
+                    equal_nan=equal_nan,
+                )
+            except TypeError:
+                # non-numeric (object dtype) values cannot be compared with
+                # a tolerance: compare them exactly
+                return np.array_equal(left_value, right_value)
 
         def extra_allclose(left_value, right_value):
             return dict_allclose(
